@@ -339,7 +339,8 @@ def _install_index(ev, Rterm):
             if len(offs) > 8:
                 raise Unsupported("loop at line %d runs %d times" % (st.lineno, len(offs)))
             for o_ in offs:
-                ev.env[st.target.id] = Idx(lo.base, o_)
+                # an absolute position is an ordinary integer (it may be used in arithmetic: `8 * offset`)
+                ev.env[st.target.id] = te.tconst(o_) if lo.base == "0" else Idx(lo.base, o_)
                 res = ev.block(st.body)
                 if res is not None:
                     return res
